@@ -60,6 +60,21 @@ class BadSpec:
             return False
 
 
+def _plain(x):
+    """Plain JSON-able python data (numpy scalars -> python scalars, tuples -> lists)."""
+    if isinstance(x, dict):
+        return {str(k): _plain(v) for k, v in x.items()}
+    if isinstance(x, (list, tuple)):
+        return [_plain(v) for v in x]
+    if isinstance(x, np.integer):
+        return int(x)
+    if isinstance(x, np.floating):
+        return float(x)
+    if isinstance(x, np.bool_):
+        return bool(x)
+    return x
+
+
 def rnd(g, lo=-2.0, hi=2.0):
     v = round(g.uniform(lo, hi), 3)
     return v if v != 0 else 0.5
@@ -171,7 +186,7 @@ class Catalog:
         out = spec.gen(ctx, recv)
         if out is None:
             return None
-        step = dict(out)
+        step = _plain(dict(out))
         step["op"] = spec.name
         ops = [int(x) for x in step.get("operands", [])]
         step["operands"] = ops
@@ -182,7 +197,7 @@ class Catalog:
             else:
                 kinds.append(ctx.pending_kinds.get(o, "A"))
         step["k"] = kinds
-        return ctx.pre + [step]
+        return [_plain(p) for p in ctx.pre] + [step]
 
     # ---- results
     def split_result(self, spec, result, operands, step) -> List[Tuple[Any, Tuple[int, ...]]]:
